@@ -52,7 +52,7 @@ class TH:
             raise Unknown(f"neighbors() called on {v!r}, which is not a vertex of the neighbour map")
         return Seq([self.V[n] for n in self.NB[v.name]], "list")
 
-    def setup(self, nbmap, members, vcls="Vertex", attrs=None):
+    def setup(self, nbmap, members, vcls="Vertex", attrs=None, hidden=()):
         """vertices named by the keys of nbmap; universe of `members` (or None).  The individuals are built once
         per (map, vertex class) and re-used: traversals are read-only (C13 decides that)."""
         h = self.h
@@ -73,9 +73,15 @@ class TH:
         if members is None:
             self.uni = None
         else:
-            mk = tuple(members)
+            mk = (tuple(members), tuple(hidden))
             if mk not in self._unis:
-                self._unis[mk] = h.universe("U", [self.V[m] for m in members])
+                if hidden:
+                    # a user universe class overriding the public `vertices` accessor: the listed members minus the hidden ones
+                    u_ = h.universe("U", [self.V[m] for m in members], "ViewUni")
+                    u_.fields["hidden"] = Seq([self.V[x] for x in hidden], "tuple")
+                    self._unis[mk] = u_
+                else:
+                    self._unis[mk] = h.universe("U", [self.V[m] for m in members])
             self.uni = self._unis[mk]
         h.settle()
         return self.V
@@ -183,9 +189,9 @@ def same_filter(th, got, want):
         del want.calls[n0:]
 
 
-def eval_traversal(th: TH, tname, form, nbmap, members, settings, ffr_mode, start="a", vcls="Vertex"):
+def eval_traversal(th: TH, tname, form, nbmap, members, settings, ffr_mode, start="a", vcls="Vertex", hidden=()):
     """-> dict(outcome=..., listing=[names] | exc, calls_ok=bool, calls=[...])"""
-    V = th.setup(nbmap, members, vcls)
+    V = th.setup(nbmap, members, vcls, hidden=hidden)
     d, uh, via = settings if settings != "defaults" else (None, None, False)
     ff_via = Callback("ff_via") if via else None
     ffr, keep = mk_ff_result(ffr_mode, V)
@@ -240,7 +246,8 @@ def sweep_job(job):
     for mi, (inner, nbmap) in enumerate(chunk):
         vcls = "SymFalsyVert" if (base + mi) % 2 else "Vertex"    # a traversal never depends on the truth value of a vertex
         for members in (None, list(inner)):
-            member = (lambda v: True) if members is None else (lambda v, m=set(members): v in m)
+            hidden = (inner[1],) if members is not None and len(inner) > 1 and (base + mi) % 3 == 2 else ()
+            member = (lambda v: True) if members is None else (lambda v, m=set(members) - set(hidden): v in m)
             for ti, tname in enumerate(TRAVS):
                 base_listing = None
                 groups[tname] = groups.get(tname, base) + 1
@@ -258,10 +265,10 @@ def sweep_job(job):
                     elif ffr == "none":
                         base_form, base_settings = form, settings
                     n += 1
-                    rec = dict(map={v: list(l) for v, l in nbmap.items()}, universe=members, trav=tname, form=form, settings=settings, ff_result=ffr)
+                    rec = dict(map={v: list(l) for v, l in nbmap.items()}, universe=members, trav=tname, form=form, settings=settings, ff_result=ffr, hidden=list(hidden))
                     try:
                         try:
-                            r = eval_traversal(th, tname, form, nbmap, members, settings, ffr, vcls=vcls)
+                            r = eval_traversal(th, tname, form, nbmap, members, settings, ffr, vcls=vcls, hidden=hidden)
                         except Unknown as u0:
                             if "set-order" not in str(u0) and "set-pop" not in str(u0):
                                 raise
@@ -271,7 +278,7 @@ def sweep_job(job):
                             for order in ("insertion", "reversed"):
                                 th.h.w.set_order = order
                                 try:
-                                    outs.append(eval_traversal(th, tname, form, nbmap, members, settings, ffr, vcls=vcls))
+                                    outs.append(eval_traversal(th, tname, form, nbmap, members, settings, ffr, vcls=vcls, hidden=hidden))
                                 finally:
                                     th.h.w.set_order = "fork"
                             r = outs[0]
